@@ -39,6 +39,9 @@ class FakeSock:
     def fileno(self):
         return 1000 + self.wire.id
 
+    def setsockopt(self, *a):
+        self.wire.w.log("setsockopt", self.wire.id, tuple(a))
+
 
 def _is_readable(sock):
     if sock is None:
